@@ -286,6 +286,140 @@ pub unsafe extern "C" fn pthread_create(
 }
 
 // ---------------------------------------------------------------------------------------------
+// File-system probes: which files does the code under test LOOK FOR (and not find)?
+//
+// The generator under test opens no file at all. A change that looks for an optional file (a
+// configuration file in the working directory, an override next to the shader, a cache entry in
+// the home directory) observes state the statement forbids it to observe, but looking alone
+// changes nothing one could see. The seam records the paths a simulated thread asked for inside a
+// call and did not find; the driver then runs the same plan again with those files present and
+// compares the results with the golden table: if the answer changes, the file was an input.
+
+thread_local! {
+    static FILE_PROBES: RefCell<Option<Vec<String>>> = const { RefCell::new(None) };
+}
+
+/// Start (Some(empty)) or stop recording on the calling thread.
+pub fn set_file_probe_recording(on: bool) {
+    let _ = FILE_PROBES.try_with(|p| {
+        if let Ok(mut p) = p.try_borrow_mut() {
+            if on {
+                if p.is_none() {
+                    *p = Some(Vec::new());
+                }
+            } else {
+                *p = None;
+            }
+        }
+    });
+}
+
+/// Pause or resume recording without losing what was recorded (the harness's own file access).
+pub fn take_file_probes() -> Vec<String> {
+    FILE_PROBES
+        .try_with(|p| p.try_borrow_mut().ok().and_then(|mut p| p.as_mut().map(std::mem::take)))
+        .ok()
+        .flatten()
+        .unwrap_or_default()
+}
+
+unsafe fn record_missing(dirfd: libc::c_int, path: *const libc::c_char) {
+    if path.is_null() {
+        return;
+    }
+    let _quiet = AllocPointsSuspended::new();
+    let _ = FILE_PROBES.try_with(|p| {
+        if let Ok(mut p) = p.try_borrow_mut() {
+            if let Some(list) = p.as_mut() {
+                let text = std::ffi::CStr::from_ptr(path).to_string_lossy().into_owned();
+                let absolute = if text.starts_with('/') {
+                    Some(text)
+                } else if dirfd == libc::AT_FDCWD {
+                    let mut buf = [0u8; 4096];
+                    let n = libc::syscall(libc::SYS_getcwd, buf.as_mut_ptr(), buf.len());
+                    if n > 0 {
+                        let cwd = std::ffi::CStr::from_ptr(buf.as_ptr() as *const libc::c_char).to_string_lossy();
+                        Some(format!("{}/{}", cwd.trim_end_matches('/'), text))
+                    } else {
+                        None
+                    }
+                } else {
+                    None
+                };
+                if let Some(a) = absolute {
+                    if list.len() < 64 && !list.contains(&a) {
+                        list.push(a);
+                    }
+                }
+            }
+        }
+    });
+}
+
+unsafe fn errno() -> libc::c_int {
+    *libc::__errno_location()
+}
+
+unsafe fn sys_ret(r: libc::c_long) -> libc::c_int {
+    // raw syscalls through libc::syscall already follow the -1/errno convention
+    r as libc::c_int
+}
+
+#[no_mangle]
+pub unsafe extern "C" fn openat(dirfd: libc::c_int, path: *const libc::c_char, flags: libc::c_int, mode: libc::c_uint) -> libc::c_int {
+    let r = sys_ret(libc::syscall(libc::SYS_openat, dirfd, path, flags, mode));
+    if r < 0 && errno() == libc::ENOENT && flags & libc::O_CREAT == 0 {
+        let e = errno();
+        record_missing(dirfd, path);
+        *libc::__errno_location() = e;
+    }
+    r
+}
+
+#[no_mangle]
+pub unsafe extern "C" fn openat64(dirfd: libc::c_int, path: *const libc::c_char, flags: libc::c_int, mode: libc::c_uint) -> libc::c_int {
+    openat(dirfd, path, flags | libc::O_LARGEFILE, mode)
+}
+
+#[no_mangle]
+pub unsafe extern "C" fn open(path: *const libc::c_char, flags: libc::c_int, mode: libc::c_uint) -> libc::c_int {
+    openat(libc::AT_FDCWD, path, flags, mode)
+}
+
+#[no_mangle]
+pub unsafe extern "C" fn open64(path: *const libc::c_char, flags: libc::c_int, mode: libc::c_uint) -> libc::c_int {
+    openat(libc::AT_FDCWD, path, flags | libc::O_LARGEFILE, mode)
+}
+
+#[no_mangle]
+pub unsafe extern "C" fn statx(
+    dirfd: libc::c_int,
+    path: *const libc::c_char,
+    flags: libc::c_int,
+    mask: libc::c_uint,
+    buf: *mut libc::statx,
+) -> libc::c_int {
+    let r = sys_ret(libc::syscall(libc::SYS_statx, dirfd, path, flags, mask, buf));
+    if r < 0 && errno() == libc::ENOENT {
+        let e = errno();
+        record_missing(dirfd, path);
+        *libc::__errno_location() = e;
+    }
+    r
+}
+
+#[no_mangle]
+pub unsafe extern "C" fn access(path: *const libc::c_char, mode: libc::c_int) -> libc::c_int {
+    let r = sys_ret(libc::syscall(libc::SYS_faccessat, libc::AT_FDCWD, path, mode));
+    if r < 0 && errno() == libc::ENOENT {
+        let e = errno();
+        record_missing(libc::AT_FDCWD, path);
+        *libc::__errno_location() = e;
+    }
+    r
+}
+
+// ---------------------------------------------------------------------------------------------
 // Allocation points: scheduling points in code that has no hook at all.
 //
 // Every heap allocation made by a simulated thread while it is inside a library call is counted;
